@@ -310,6 +310,20 @@ pub fn run(ctx: &mut Ctx) {
             }
         }
     }
+    // every second case with its rows renumbered (fixed pseudo-random permutation per case)
+    let cases: Vec<StabCase> = cases
+        .into_iter()
+        .enumerate()
+        .map(|(k, c)| {
+            if k % 2 == 1 && c.table.len() >= 3 {
+                let sw: Vec<(u32, u32)> = (0..4u32).map(|j| ((k as u32).wrapping_mul(2654435761).rotate_left(j * 7), (k as u32 ^ 0x5bd1e995).wrapping_mul(40503).rotate_left(j * 11))).collect();
+                let h = c.history.clone();
+                renumbered_case(&c, &sw, h)
+            } else {
+                c
+            }
+        })
+        .collect();
     let n = cases.len();
     ctx.run_par(&SUB_STAB, cases.clone(), Some(&format!("{} (table, base row) cases: tables of index <= {} (<= 4 for >= 3 generators) of every corpus group with <= 4 generators (at most {} tables per group), every base row", n, kmax, t.pick(100, 600))));
 
@@ -341,9 +355,29 @@ pub fn run(ctx: &mut Ctx) {
     ctx.run_prop(&SUB_STAB, || imprimitive_case().prop_flat_map(with_history), t.pick(6_000, 100_000));
 }
 
-/// half of the cases get a table object with a history (0..=2 earlier renumbered tables)
+/// half of the cases get a table object with a history (0..=2 earlier renumbered tables); half of the cases
+/// get their rows renumbered by a random permutation (a coset table is a transitive permutation
+/// representation with a base row - nothing says that rows are numbered in the order in which a
+/// breadth-first search from row 0 meets them)
 fn with_history(c: StabCase) -> impl Strategy<Value = StabCase> {
-    prop::collection::vec(prop::collection::vec((any::<u32>(), any::<u32>()), 1..4), 0..=2).prop_map(move |history| StabCase { history, ..c.clone() })
+    (prop::collection::vec(prop::collection::vec((any::<u32>(), any::<u32>()), 1..4), 0..=2), prop_oneof![Just(vec![]), prop::collection::vec((any::<u32>(), any::<u32>()), 1..8)]).prop_map(move |(history, renum)| renumbered_case(&c, &renum, history))
+}
+
+fn renumbered_case(c: &StabCase, renum: &[(u32, u32)], history: Vec<Vec<(u32, u32)>>) -> StabCase {
+    if renum.is_empty() {
+        return StabCase { history, ..c.clone() };
+    }
+    let re = |tab: &Vec<Vec<usize>>, salt: u32| -> Vec<Vec<usize>> {
+        if tab.is_empty() {
+            return vec![];
+        }
+        let sw: Vec<(u32, u32)> = renum.iter().map(|&(a, b)| (a ^ salt, b.wrapping_add(salt))).collect();
+        match Table::from_forward(c.nr_gens, tab.clone()) {
+            Some(t) => crate::props::c05::renumber_rows(&t, &sw).fwd,
+            None => tab.clone(),
+        }
+    };
+    StabCase { table: re(&c.table, 0), table2: re(&c.table2, 0x9E37), history, ..c.clone() }
 }
 
 /// a case on a random presentation: one of its low-index tables (validated), a base row, a second table
